@@ -58,6 +58,8 @@ type Prog struct {
 	Role   string `json:"role"` // attester proposer proposer-blinded voluntary-exit registration contribution
 	Direct bool   `json:"direct,omitempty"`
 	Faulty []int  `json:"faulty"` // <= f member ids, never Self; the same members are faulty in every duty
+	// Forks: epochs at which the beacon chain's fork version (hence every signing domain) changes
+	Forks []uint64 `json:"forks,omitempty"`
 	// the first duty (inline, so that one-duty programs stay flat)
 	Slot     uint64    `json:"slot"`
 	Value    string    `json:"value,omitempty"`
@@ -347,7 +349,7 @@ func run(p Prog) *prog.Result {
 		}
 	}
 	role := beaconRole(p.Role)
-	s := dutysim.New(dutysim.Config{N: p.N, Self: spectypes.OperatorID(p.Self), Blinded: p.Role == "proposer-blinded", Direct: p.Direct})
+	s := dutysim.New(dutysim.Config{N: p.N, Self: spectypes.OperatorID(p.Self), Blinded: p.Role == "proposer-blinded", Direct: p.Direct, ForkEpochs: p.Forks})
 	defer s.Close()
 	quorum := 2*f + 1
 	duties := append([]Duty{{Value: p.Value, Net: p.Net, Fault: p.Fault, FaultN: p.FaultN, Cut: p.Cut, Arrivals: p.Arrivals}}, p.More...)
@@ -360,11 +362,21 @@ func run(p Prog) *prog.Result {
 	ignored := map[int]bool{} // submissions already counted as the known finding
 	slot := phase0.Slot(p.Slot)
 	var earlier [][32]byte // object roots of earlier duties of this runner
+	var prevVer phase0.Version
 
 	for di, d := range duties {
 		if di > 0 {
 			slot += slotDelta(d.D)
 		}
+		ver := dutysim.ForkVersion(p.Forks, dutysim.Network.EstimatedEpochAtSlot(slot))
+		if ver != dutysim.ForkVersion(nil, 0) {
+			classes["fork:duty-after-a-fork"] = true
+		}
+		if di > 0 && ver != prevVer {
+			classes["fork:duty-sequence-straddles-a-fork"] = true
+			classes["fork:straddle:"+p.Role] = true
+		}
+		prevVer = ver
 		flt := fault{net: d.Net, kind: d.Fault, n: d.FaultN}
 		pd := setup(s, role, slot, d.Value, flt)
 		trace = append(trace, fmt.Sprintf(" duty %d: slot %d epoch %d fault=%q failed-start=%v exempt=%q", di, slot, dutysim.Network.EstimatedEpochAtSlot(slot), flt.String(), pd.failedStart, pd.exempt))
@@ -451,7 +463,7 @@ func run(p Prog) *prog.Result {
 				if obj == nil {
 					return prog.Failf("C05:submitted-nil-object", "duty %d step %d (op %d): %s submitted without an object\n%s", di, step, sub.Op, sub.Kind, strings.Join(trace, "\n"))
 				}
-				if !s.VerifyValidatorSig(sub.Sig[:], obj, sub.DomainType) {
+				if !s.VerifyValidatorSig(sub.Sig[:], obj, sub.DomainType, pd.slot) {
 					return prog.Failf("C05:invalid-signature-submitted", "duty %d step %d (op %d): submitted %s carries a signature that does not verify under the validator key over the submitted object (%s)\n%s", di, step, sub.Op, sub.Kind, map[bool]string{true: "the object of this duty", false: stale}[stale == ""], strings.Join(trace, "\n"))
 				}
 				// ... and the submitted object is the one derived from THIS duty
@@ -853,6 +865,27 @@ func genProg(roleSet []string, sizes []int) func(t *rapid.T) Prog {
 			d.Arrivals = genArrivals(t, p.N, isFaulty)
 			d.Cut = genCut(t, len(d.Arrivals))
 			p.More = append(p.More, d)
+		}
+		// fork epochs: none (40%); a fork between duty k-1 and duty k (40% when there is a further duty; the per-slot
+		// roles are moved to the end of an epoch so that the next slot is on the other side); or drawn freely
+		switch c := rapid.IntRange(0, 9).Draw(t, "forks"); {
+		case c <= 3 && len(p.More) > 0:
+			k := rapid.IntRange(1, len(p.More)).Draw(t, "fork-before-duty")
+			cumPrev := 0
+			for i := 0; i < k-1; i++ {
+				cumPrev += p.More[i].D
+			}
+			if p.Role != "voluntary-exit" && p.Role != "registration" {
+				e := rapid.IntRange(1, 2).Draw(t, "fork-epoch")
+				p.Slot = uint64(32*e - 1 - cumPrev)
+			}
+			slotK := p.Slot + uint64(cumPrev+p.More[k-1].D)
+			p.Forks = []uint64{slotK / 32}
+			if uint64(p.Slot+uint64(cumPrev))/32 == slotK/32 {
+				p.Forks = []uint64{slotK/32 + 1} // same epoch (exit / registration with a +1/+3 delta): fork later
+			}
+		case c <= 5:
+			p.Forks = rapid.SliceOfNDistinct(rapid.Uint64Range(0, 4), 1, 2, rapid.ID[uint64]).Draw(t, "fork-epochs")
 		}
 		return p
 	}
